@@ -173,6 +173,32 @@ Encode ==
   /\ ei' = ei + 1
   /\ UNCHANGED << tid, ph, rd, nrec, bnd, dec, cfil, clf, cobj, cnf, rej, hcm, seen, projs, failedw >>
 
+(* ----------------------- C04 / C05: one attribute written on its own ----- *)
+(* (the combinations of spec/AttrEncoder.tla replayed on real Attribute objects) *)
+AttrClauses(e) ==
+  LET want == IF e.rejected \/ e.given = "none" THEN -1
+              ELSE CASE e.given = "scalar" -> 1 [] e.given = "empty" -> 0 [] e.given = "one" -> 1 [] e.given = "two" -> 2
+                     [] e.given = "many" -> 130 [] e.given = "nested" -> 4
+      B == e.bytes
+  IN IF e.outcome = "raised" THEN {}          \* refused when written: fail-closed
+     ELSE IF B = << >> THEN {"C04.Truncated"}
+     ELSE IF B[1] = 0 THEN (IF want <= 0 /\ Len(B) = 1 THEN {} ELSE {"C05.AttrValue"})
+     ELSE LET c == AttrComponent(B, 1, [DefaultAttr EXCEPT !.label = << 76 >>], TRUE) IN
+          c.bad
+     \cup (IF c.ok /\ c.next # Len(B) + 1 THEN {"C04.Leftover"} ELSE {})
+     \cup (IF ~c.ok THEN {}
+           ELSE IF want = -1 THEN {"C05.UnassignedAbsent"}
+           ELSE IF want = 0 THEN (IF c.a.count = 0 /\ ~c.a.hasValue THEN {} ELSE {"C05.AttrCount"})
+           ELSE (IF c.a.hasValue /\ c.a.count = want THEN {} ELSE {"C05.AttrCount"})
+           \cup (IF e.units = (c.a.units # << >>) THEN {} ELSE {"C05.AttrUnits"}))
+
+AttrEvent ==
+  /\ ph = "ev" /\ ei <= NEvents /\ E.op = "attr"
+  /\ verdict' = verdict \cup Tag(AttrClauses(E), ei)
+  /\ cnt' = [cnt EXCEPT !.events = @ + 1, !.attrs = @ + 1]
+  /\ ei' = ei + 1
+  /\ UNCHANGED << tid, ph, rd, nrec, bnd, dec, cfil, clf, cobj, cnf, rej, hcm, seen, projs, failedw >>
+
 (* ----------------------- writes ------------------------------------------ *)
 (* C17: what the specification of a file must not contain inside the high-compatibility mode *)
 HcNameOk(n) == n # << >> /\ \A i \in DOMAIN n : n[i] \in (65..90) \cup (48..57) \cup {45, 95}
@@ -349,7 +375,7 @@ CheckHistory ==          \* C10 / C11 / C14 same specification => same bytes; C1
 \* (handled in BeginWrite for the flag; caller data below)
 
 (* events this specification has no clause for are skipped (counted)        *)
-KnownOps == {"lowwrite", "write", "new_file", "add_lf", "add", "set", "nofmt_data", "hc_enter", "hc_exit", "hc_exit_exc", "encode"}
+KnownOps == {"lowwrite", "write", "new_file", "add_lf", "add", "set", "nofmt_data", "hc_enter", "hc_exit", "hc_exit_exc", "encode", "attr"}
 SkipEvent ==
   /\ ph = "ev" /\ ei <= NEvents /\ E.op \notin KnownOps
   /\ ei' = ei + 1 /\ cnt' = [cnt EXCEPT !.events = @ + 1]
@@ -362,7 +388,7 @@ Finish ==
   /\ ph' = "done"
   /\ UNCHANGED << tid, ei, rd, nrec, bnd, dec, cfil, clf, cobj, cnf, rej, hcm, seen, projs, failedw, verdict, cnt >>
 
-Next == NewFile \/ AddLf \/ AddObject \/ SetAttr \/ NofmtData \/ HcEvent \/ Encode
+Next == NewFile \/ AddLf \/ AddObject \/ SetAttr \/ NofmtData \/ HcEvent \/ Encode \/ AttrEvent
         \/ BeginWrite \/ ReadVR \/ EndFile \/ CheckStructure \/ CheckObjects \/ CheckData \/ CheckHistory
         \/ SkipEvent \/ Finish
 
